@@ -52,6 +52,15 @@ def fam_cid(rng, i):
             p["cid_lifetime_ms"] = life
         else:
             p[which + ".cid_lifetime_ms"] = life
+        if i % 6 in (1, 3):
+            # ids that expire OUT OF sequence-number order: every second generated id lives shorter (a connection-id
+            # provider may return any lifetime >= 60 s per id)
+            life = max(life, 85000)
+            alt = max(60000, life - rng.choice([7000, 15000, 25000]))
+            for e in (("c", "s") if which == "both" else (which,)):
+                p[e + ".cid_lifetime_ms"] = life
+                p[e + ".cid_lifetime_alt_ms"] = alt
+            p.pop("cid_lifetime_ms", None)
         hold = life * rng.choice([1, 2, 3]) + rng.choice([5000, 20000, 45000])
         p["tick_ms"] = rng.choice([500, 1000, 3000, 9000])
         p["c.max_idle_ms"] = 100000
